@@ -347,7 +347,7 @@ def _unpack_simple_filter(
     else:
         filter_type = None
 
-    attribute = current_view[:attribute_end].tobytes().decode("utf-8")
+    attribute = current_view[:attribute_end].tobytes().decode("utf-8", errors="surrogateescape")
     if filter_type != ":" and not _ATTRIBUTE_PATTERN.match(attribute):
         raise FilterSyntaxError(
             "Filter attribute is invalid",
@@ -743,7 +743,15 @@ class LDAPFilter:
             LDAPFilter: The converted filter.
         """
         filter = filter.strip()
-        b_filter = filter.encode("utf-8", errors="surrogateescape")
+        try:
+            b_filter = filter.encode("utf-8", errors="surrogateescape")
+        except UnicodeEncodeError as e:
+            raise FilterSyntaxError(
+                "Filter contains a character that cannot be encoded",
+                filter=filter,
+                offset=e.start,
+                length=e.end - e.start,
+            ) from e
         filter_view = memoryview(b_filter)
         try:
             filter_obj, consumed = _unpack_filter(filter, filter_view, 0, len(b_filter))
